@@ -14,7 +14,7 @@ from .. import problems as P
 
 HERE = Path(__file__).resolve().parents[1]
 REPO = os.environ.get("OPENPINCH_REPO", "/repo")
-KINDS = ["svc_dict", "svc_dict", "svc_model", "svc_same_model", "pp", "svc_dict_of_models"]
+KINDS = ["svc_dict", "svc_dict", "svc_model", "svc_same_model", "pp", "pp_file", "svc_dict_of_models"]
 
 
 def run_worker(problems, ops):
@@ -122,6 +122,10 @@ def run(ctx: Ctx):
         for pos, ((kind, i), op) in enumerate(zip(ops, r["ops"])):
             nt = any(j != i for _, j in ops[:pos])
             ctx.count({"kind": "call", "op": kind, "pos": pos}, nt, [kind, f"pos={pos}"])
+            pn = op.get("project_name")
+            if pn and pn[0] != pn[1]:
+                ctx.oracle_fail(case, f"call {pos} ({kind} on problem {remap[i]}): after load the reused wrapper names the project {pn[0]!r}, a fresh wrapper {pn[1]!r}",
+                                None, "same_as_fresh")
             if "raised" in op:
                 if ref[i][0] != "raised" or ref[i][1] != op["raised"].split(":")[0]:
                     ctx.oracle_fail(case, f"call {pos} ({kind} on problem {remap[i]}) raised {op['raised']}; fresh run: {ref[i][0]}", None, "same_as_fresh")
